@@ -14,9 +14,9 @@ import (
 // valJSON renders a variant as the value record of VariantOps.tla.
 func valJSON(v *variants.Variant) Ev {
 	if v == nil {
-		return Ev{"t": "nil", "s": "", "c": []int{}, "k": "none", "n": 0}
+		return Ev{"t": "nil", "s": "", "c": []int{}, "k": "none", "n": 0, "u": "", "w": false}
 	}
-	e := Ev{"t": vtypeNames[v.Type()], "k": "none", "n": 0}
+	e := Ev{"t": vtypeNames[v.Type()], "k": "none", "n": 0, "u": "", "w": false}
 	small := func(x int64) bool { return x >= -(1<<20) && x <= (1<<20) }
 	frac := func(f float64) {
 		if f == 0 {
@@ -58,12 +58,18 @@ func valJSON(v *variants.Variant) Ev {
 	case variants.TimeSpan:
 		d := v.AsTimeSpan()
 		e["s"] = strconv.FormatInt(int64(d), 10) + "ns"
+		if d%time.Millisecond == 0 {
+			e["w"] = true
+			e["u"] = strconv.FormatInt(int64(d/time.Millisecond), 10)
+		}
 		if d%time.Millisecond == 0 && small(int64(d/time.Millisecond)) {
 			e["k"], e["n"] = "int", int(d/time.Millisecond)
 		}
 	case variants.DateTime:
 		t := v.AsDateTime()
 		e["s"] = strconv.FormatInt(t.Unix(), 10) + "s+" + strconv.Itoa(t.Nanosecond())
+		e["u"] = strconv.FormatInt(t.Unix(), 10)
+		e["w"] = t.Nanosecond() == 0
 		if t.Nanosecond() == 0 && small(t.Unix()) {
 			e["k"], e["n"] = "int", int(t.Unix())
 		}
@@ -239,6 +245,10 @@ func poolOf(full bool) []*variants.Variant {
 
 func execC06(seg []Ev) []Ev {
 	out := make([]Ev, 0, len(seg))
+	// state of a history segment ("bstep" events): one long-lived manager, two reusable operand objects, results kept
+	var hm variants.IVariantOperations
+	ha, hb := variants.EmptyVariant(), variants.EmptyVariant()
+	kp := &keeper{}
 	for _, in := range seg {
 		full := toBool(in["full"])
 		if v, ok := in["xseed"]; ok {
@@ -277,6 +287,35 @@ func execC06(seg []Ev) []Ev {
 		_ = get
 		nilv := valJSON(nil)
 		switch op {
+		case "bstep":
+			// the operator on a long-lived manager, operands optionally held in objects that are re-assigned in place from step to step
+			if hm == nil {
+				hm = c06mgr(mgr)
+			}
+			name, ipa, ipb := toStr(in["name"]), toBool(in["ipa"]), toBool(in["ipb"])
+			x, y := a, b
+			if ipa {
+				guarded(func() { ha.Assign(a) })
+				x = ha
+			}
+			if ipb {
+				guarded(func() { hb.Assign(b) })
+				y = hb
+			}
+			oc, r, _ := opOutcome(func() (*variants.Variant, error) { return binCall(hm, name, x, y) })
+			fp := valuePool(full)
+			if wide {
+				fp = widePool()
+			}
+			fo, fr, _ := opOutcome(func() (*variants.Variant, error) {
+				return binCall(c06mgr(mgr), name, fp[toInt(in["ai"])%len(fp)], fp[toInt(in["bi"])%len(fp)])
+			})
+			e["name"], e["ipa"], e["ipb"], e["outcome"], e["r"], e["fo"], e["fr"] = name, ipa, ipb, oc, valJSON(r), fo, valJSON(fr)
+			if oc == "value" && r != x && r != y {
+				res := r
+				kp.keep("result of an earlier operator call", func() string { j := valJSON(res); return fmt.Sprint(j["t"], j["s"]) })
+			}
+			kp.check(e)
 		case "bin":
 			name := toStr(in["name"])
 			e["name"] = name
@@ -527,6 +566,39 @@ func genC06(g *Gen) {
 	}
 	n := len(valuePool(full))
 	nw := len(widePool())
+	// histories on one manager with operand objects that are re-assigned in place
+	rh := g.Rand()
+	strIdx := []int{}
+	for i, v := range valuePool(full) {
+		if v.Type() == variants.String || v.Type() == variants.Array {
+			strIdx = append(strIdx, i)
+		}
+	}
+	for _, mgr := range []string{"unsafe", "safe"} {
+		for rep := 0; rep < g.Pick(60, 1500); rep++ {
+			var seg []Ev
+			names := append(append([]string{}, binNames...), "GetElement", "In")
+			name := names[rh.Intn(len(names))]
+			ai := rh.Intn(n)
+			for st := 0; st < 3+rh.Intn(8); st++ {
+				if rh.Intn(3) == 0 {
+					name = names[rh.Intn(len(names))]
+				}
+				if rh.Intn(3) == 0 {
+					ai = rh.Intn(n)
+				}
+				bi := rh.Intn(n)
+				if rh.Intn(2) == 0 {
+					bi = strIdx[rh.Intn(len(strIdx))]
+				}
+				if name == "GetElement" && rh.Intn(2) == 0 {
+					ai, bi = strIdx[rh.Intn(len(strIdx))], rh.Intn(8) // small integers sit at the start of the pool
+				}
+				seg = append(seg, Ev{"op": "bstep", "mgr": mgr, "name": name, "ai": ai, "bi": bi, "ipa": rh.Intn(2) == 0, "ipb": rh.Intn(3) != 0, "full": full, "xseed": int(c06extraSeed)})
+			}
+			g.Run("histories on one manager, operands re-assigned in place", seg)
+		}
+	}
 	for _, mgr := range []string{"unsafe", "safe"} {
 		for ai := 0; ai < nw; ai++ {
 			for bi := 0; bi < nw; bi++ {
